@@ -316,7 +316,7 @@ impl World for C20 {
             level: "exploration",
             rule: "case = 1-3 shared frozen modules (generated values of all kinds, functions, record/enum types, strings whose hash is not yet computed) + 2-6 per-thread workloads (load and use the shared modules, hash/compare/repr their values, construct shared record/enum types, build-freeze-drop own modules, send a frozen module to another thread which uses and drops it) x 3-5 seeded schedules (uniform random, PCT with d change points, few pre-emptions) over the hooked scheduling points; reference = the same scenario under the run-to-completion schedule; non-trivial = at least one context switch at a hooked /repo site; distinct = distinct digest of the (thread, site) sequence of a schedule",
             sim_time_unit: "scheduling points passed (shared-state sites in /repo + evaluator ticks + send/recv)",
-            real_components: vec!["frozen heaps / FrozenHeapRef ref-counting", "chunk allocator, chunk ref-counts, per-thread chunk cache", "lazy string hash cache", "frozen def atomic cells / post_freeze", "record / enum types", "evaluator on every thread", "std thread-locals and statics (real OS threads)"],
+            real_components: vec!["chunk.rs / chunk_part.rs / chain.rs / per_thread.rs / allocator.rs re-compiled from /repo with a scheduling point before every atomic access (chunk micro-world under shuttle, 1 case in 5)", "frozen heaps / FrozenHeapRef ref-counting", "chunk allocator, chunk ref-counts, per-thread chunk cache", "lazy string hash cache", "frozen def atomic cells / post_freeze", "record / enum types", "evaluator on every thread", "std thread-locals and statics (real OS threads)"],
             stub_components: vec!["OS scheduler (replaced by the seeded cooperative scheduler: one thread holds the baton at a time)", "mailboxes between threads", "file loader"],
             assumptions: vec![
                 "code between two scheduling points runs atomically; a data race on a location without a scheduling point is only seen if it changes a result at this granularity (no happens-before race detector: Miri cannot run the crate)",
@@ -346,7 +346,14 @@ impl World for C20 {
         kit::ctx_reset();
     }
 
-    fn generate(&self, seed: u64, index: u64, _tier: Tier) -> Json {
+    fn generate(&self, seed: u64, index: u64, tier: Tier) -> Json {
+        if index % 5 == 4 {
+            // Chunk micro-world: the real chunk allocator sources under shuttle, with a scheduling
+            // point before every atomic access (see /verif/chunksim).
+            let mut r = Rng::new(run_seed(seed, "C20chunk", index));
+            return json!({"kind": "chunksim", "seed": r.next_u64() >> 16, "iters": if tier == Tier::Thorough { 20000 } else { 3000 },
+                          "threads": 2 + r.below(4), "rounds": 2 + r.below(5)});
+        }
         let root = Rng::new(run_seed(seed, "C20", index));
         let mut wl = root.fork("workload");
         let mut sch = root.fork("schedule");
@@ -423,6 +430,42 @@ impl World for C20 {
     fn execute(&self, case: &Json) -> Outcome {
         let mut o = Outcome::default();
         o.digest = fnv(case.to_string().as_bytes());
+        if case["kind"] == "chunksim" {
+            let exe = std::env::current_exe().expect("exe");
+            let bin = exe.parent().map(|p| p.join("verif-chunksim")).unwrap_or_default();
+            let out = std::process::Command::new(&bin)
+                .arg(case["seed"].as_u64().unwrap_or(1).to_string())
+                .arg(case["iters"].as_u64().unwrap_or(1000).to_string())
+                .arg(case["threads"].as_u64().unwrap_or(3).to_string())
+                .arg(case["rounds"].as_u64().unwrap_or(4).to_string())
+                .stdin(std::process::Stdio::null())
+                .stderr(std::process::Stdio::null())
+                .output();
+            match out {
+                Err(e) => o.violate("harness", "harness", format!("cannot run {}: {e}", bin.display())),
+                Ok(out) => {
+                    let text = String::from_utf8_lossy(&out.stdout);
+                    match text.lines().find_map(|l| l.strip_prefix("CHUNKSIM ")).and_then(|l| serde_json::from_str::<Json>(l).ok()) {
+                        None => o.violate("crash", "chunksim-crash", format!("chunk micro-world died: {:?} (memory corruption in the chunk allocator under this schedule)", out.status)),
+                        Some(j) => {
+                            let n = j["executions"].as_u64().unwrap_or(0);
+                            o.sim_time += n;
+                            o.bump("chunksim.executions", n);
+                            o.bump("probe.chunksim_leaked_blocks", j["leaked_blocks"].as_u64().unwrap_or(0));
+                            o.nontrivial = n > 0;
+                            let problems: Vec<String> = j["problems"].as_array().map(|a| a.iter().filter_map(|x| x.as_str().map(|s| s.to_owned())).collect()).unwrap_or_default();
+                            if let Some(p) = problems.first() {
+                                o.violate("chunk-invariant", "chunksim", format!("execution {n}: {p}"));
+                            } else if j["panicked"].as_bool().unwrap_or(false) {
+                                o.violate("panic", "chunksim-panic", format!("panic inside the chunk allocator in execution {n}"));
+                            }
+                        }
+                    }
+                }
+            }
+            o.log_hash = fnv(format!("{:?}{:?}", o.stats, o.violation.as_ref().map(|v| v.detail.clone())).as_bytes());
+            return o;
+        }
         let cold = case["cold"].as_bool().unwrap_or(false);
         if cold && std::env::var_os("VERIF_NO_WARMUP").is_none() {
             // Cold start: the whole case runs in a fresh process whose process-wide lazies (globals,
